@@ -42,10 +42,10 @@ Proof. reflexivity. Qed.
 
 Lemma step_kind : forall p h o p' o', step p h o = Some (p', o') -> is_identity p' = is_identity p.
 Proof.
-  intros [st|st|se| |] h o p' o' H; simpl in H.
+  intros [st|st| | |] h o p' o' H; simpl in H.
   - destruct (sh_step st h o) as [[st' o1]|]; inversion H; reflexivity.
   - destruct (ex_step st h o) as [[st' o1]|]; inversion H; reflexivity.
-  - destruct (fr_step se h o); inversion H; reflexivity.
+  - destruct (fr_step h o); inversion H; reflexivity.
   - inversion H; reflexivity.
   - inversion H; reflexivity.
 Qed.
@@ -583,11 +583,11 @@ Definition plain_hook (h : hook) : bool :=
 Lemma step_estates_plain : forall p h o p' o', plain_hook h = true -> step p h o = Some (p', o') ->
   estates [p'] = estates [p].
 Proof.
-  intros [st|st|se| |] h o p' o' Hh H; simpl in H.
+  intros [st|st| | |] h o p' o' Hh H; simpl in H.
   - destruct (sh_step st h o) as [[st' o1]|]; inversion H; reflexivity.
   - destruct h; try discriminate; destruct o; simpl in H; try (inversion H; reflexivity).
     + destruct (ex_method st opname kind m); inversion H; reflexivity.
-  - destruct (fr_step se h o); inversion H; reflexivity.
+  - destruct (fr_step h o); inversion H; reflexivity.
   - inversion H; reflexivity.
   - inversion H; reflexivity.
 Qed.
@@ -656,7 +656,7 @@ Proof.
   - destruct (step p (HClientMethod n k) (OMethod m)) as [[p1 o1]|] eqn:Es; [|discriminate].
     destruct (apply_hook r (HClientMethod n k) o1) as [[r' o2]|] eqn:Er; [|discriminate]. inversion H; subst.
     rewrite estates_cons in *.
-    destruct p as [st|st|se| |]; simpl in Es;
+    destruct p as [st|st| | |]; simpl in Es;
       try (inversion Es; subst; simpl in *; eapply IH; eauto; fail).
     destruct (ex_method st n k m) as [m1|] eqn:Em; [|discriminate]. inversion Es; subst.
     simpl in Hl. assert (Hr : estates r = []) by (destruct (estates r); [reflexivity|simpl in Hl; lia]).
@@ -687,7 +687,7 @@ Qed.
 Lemma step_client_requests : forall p c p' o', step p HClientModule (OClient c) = Some (p', o') ->
   exists c', o' = OClient c' /\ forall C, map (request_of C) (cm_methods c') = map (request_of C) (cm_methods c).
 Proof.
-  intros [st|st|se| |] c p' o' H; simpl in H.
+  intros [st|st| | |] c p' o' H; simpl in H.
   - unfold sh_client in H. destruct (sh_methods st (cm_methods c)) as [[st1 ms]|] eqn:Em; [|discriminate].
     destruct (sh_extend_imports (cm_imports c) (sh_extended st1)) as [imports1 rest]. inversion H; subst.
     eexists. split; [reflexivity|]. intros C. simpl. eapply sh_methods_requests; eauto.
@@ -697,7 +697,7 @@ Proof.
     destruct (dedup a ++ b) eqn:Ed.
     + inversion H; subst. eexists. split; [reflexivity|]. intros C. simpl. eapply fr_methods_requests; eauto.
     + destruct (fr_tc_imports (fr_imported (cm_imports c)) (dedup a)) as [[|t0 tr]|]; [| |discriminate].
-      * destruct se; [|discriminate]. inversion H; subst.
+      * inversion H; subst.
         eexists. split; [reflexivity|]. intros C. simpl. eapply fr_methods_requests; eauto.
       * inversion H; subst.
         eexists. split; [reflexivity|]. intros C. simpl. eapply fr_methods_requests; eauto.
@@ -1030,8 +1030,8 @@ Proof. intros l1 l2 n [i [Hi Hn]]. exists i. split; [apply in_or_app; left; exac
    and return annotations), and the class each method validates with, is still bound: by a global import that was
    kept, or — for the validated class — by the import placed at the top of the method.  Hypothesis: subscript heads
    (Optional, List, Union, AsyncIterator ...) are not package imports; the tie checks it on every generated client. *)
-Theorem forward_refs_bound : forall se c c',
-  fr_client se c = Some c' ->
+Theorem forward_refs_bound : forall c c',
+  fr_client c = Some c' ->
   (forall m h, In m (cm_methods c) -> In h (sig_heads m) -> lookup h (fr_imported (cm_imports c)) = None) ->
   forall m', In m' (cm_methods c') ->
   exists m, In m (cm_methods c) /\
@@ -1039,7 +1039,7 @@ Theorem forward_refs_bound : forall se c c',
     (forall cls, fr_last_class (m_body m) = Some cls -> imported (cm_imports c) cls ->
        imported (cm_imports c') cls \/ exists from, In (SImport 1 from cls) (m_body m')).
 Proof.
-  intros se c c' H Hheads m' Hm'. unfold fr_client in H.
+  intros c c' H Hheads m' Hm'. unfold fr_client in H.
   set (ic := fr_imported (cm_imports c)) in *.
   destruct (fr_methods ic (cm_methods c)) as [[[ms A] B]|] eqn:Em; [|discriminate].
   destruct (fr_methods_spec _ _ _ _ _ Em) as [HA [HB HM]].
@@ -1051,12 +1051,12 @@ Proof.
     - assert (Hk : imported (fr_reduce (x :: r) (cm_imports c)) n).
       { apply fr_reduce_keeps; [exact Hi|]. intro Hc. destruct (Hrem n Hc) as [src Hs]. congruence. }
       destruct (fr_tc_imports ic (dedup A)) as [[|t0 tr]|]; [| |discriminate].
-      + destruct se; [|discriminate]. inversion H; subst. simpl. split; [exact Hk|reflexivity].
+      + inversion H; subst. simpl. split; [exact Hk|reflexivity].
       + inversion H; subst. simpl. split; [apply imported_app; exact Hk|reflexivity]. }
   assert (Hms : cm_methods c' = ms).
   { destruct (dedup A ++ B); [inversion H; reflexivity|].
     destruct (fr_tc_imports ic (dedup A)) as [[|t0 tr]|]; [| |discriminate].
-    - destruct se; [|discriminate]. inversion H; reflexivity.
+    - inversion H; reflexivity.
     - inversion H; reflexivity. }
   rewrite Hms in Hm'. destruct (HM m' Hm') as [m [a [b [Hin Hf]]]].
   destruct (fr_method_spec _ _ _ _ _ Hf) as [_ [_ [Hsig Hcls]]].
